@@ -1479,6 +1479,18 @@ class DynGraph(nx.Graph):
         # @todo: implement (page 8, Latapy)
         pass
 
+    def clear(self):
+        """Remove all nodes and interactions, together with their snapshots and events."""
+        nx.Graph.clear(self)
+        self.time_to_edge = defaultdict(int)
+        self.snapshots = {}
+
+    def clear_edges(self):
+        """Remove all interactions (nodes are kept), together with their snapshots and events."""
+        nx.Graph.clear_edges(self)
+        self.time_to_edge = defaultdict(int)
+        self.snapshots = {}
+
     @not_implemented()
     def remove_edge(self, u, v):
         pass
